@@ -76,3 +76,78 @@ package circularbuffer
 //@   requires queue != nil
 //@   modifies nothing
 //@   ensures [C05] result == RingSize(queue.start, queue.end, queue.full, queue.maxSize)
+
+// ---- iterator: a cursor over positions -1..n of Seq(queue) (C08) ----
+
+//@ pred ItInv(it) := it != nil && it.queue != nil && Inv(it.queue) && 0 - 1 <= it.index && it.index <= it.queue.size
+
+//@ func Queue.Iterator
+//@   requires Inv(queue)
+//@   modifies nothing
+//@   ensures [C08 C18] fresh(result) && ItInv(result) && result.queue == queue && result.index == 0 - 1
+
+//@ func Iterator.Next
+//@   requires ItInv(iterator)
+//@   modifies iterator.index
+//@   ensures [C08 C17] ItInv(iterator) && iterator.index == min(old(iterator.index) + 1, iterator.queue.size)
+//@   ensures [C08] result == (0 <= iterator.index && iterator.index < iterator.queue.size)
+
+//@ func Iterator.Prev
+//@   requires ItInv(iterator)
+//@   modifies iterator.index
+//@   ensures [C08 C17] ItInv(iterator) && iterator.index == max(old(iterator.index) - 1, 0 - 1)
+//@   ensures [C08] result == (0 <= iterator.index && iterator.index < iterator.queue.size)
+
+//@ func Iterator.Value
+//@   requires ItInv(iterator) && 0 <= iterator.index && iterator.index < iterator.queue.size
+//@   modifies nothing
+//@   ensures [C08 C18] result == Seq(iterator.queue)[iterator.index]
+
+//@ func Iterator.Index
+//@   requires ItInv(iterator)
+//@   modifies nothing
+//@   ensures [C08 C18] result == iterator.index
+
+//@ func Iterator.Begin
+//@   requires ItInv(iterator)
+//@   modifies iterator.index
+//@   ensures [C08 C17] ItInv(iterator) && iterator.index == 0 - 1
+
+//@ func Iterator.End
+//@   requires ItInv(iterator)
+//@   modifies iterator.index
+//@   ensures [C08 C17] ItInv(iterator) && iterator.index == iterator.queue.size
+
+//@ func Iterator.First
+//@   requires ItInv(iterator)
+//@   modifies iterator.index
+//@   ensures [C08 C17] ItInv(iterator) && iterator.index == 0 && result == (iterator.queue.size > 0)
+
+//@ func Iterator.Last
+//@   requires ItInv(iterator)
+//@   modifies iterator.index
+//@   ensures [C08 C17] ItInv(iterator) && iterator.index == iterator.queue.size - 1 && result == (iterator.queue.size > 0)
+
+//@ func Iterator.NextTo
+//@   requires ItInv(iterator) && f != nil
+//@   modifies iterator.index
+//@   ensures [C08 C17] ItInv(iterator)
+//@   ensures [C08] found: result ==> old(iterator.index) < iterator.index && iterator.index < iterator.queue.size && f(iterator.index, Seq(iterator.queue)[iterator.index])
+//@     && (forall j :: old(iterator.index) < j && j < iterator.index ==> !f(j, Seq(iterator.queue)[j]))
+//@   ensures [C08] notfound: !result ==> iterator.index == iterator.queue.size && (forall j :: old(iterator.index) < j && j < iterator.queue.size ==> !f(j, Seq(iterator.queue)[j]))
+//@   loop 1:
+//@     invariant ItInv(iterator) && old(iterator.index) <= iterator.index
+//@     invariant forall j :: old(iterator.index) < j && j <= iterator.index && j < iterator.queue.size ==> !f(j, Seq(iterator.queue)[j])
+//@     decreases iterator.queue.size - iterator.index
+
+//@ func Iterator.PrevTo
+//@   requires ItInv(iterator) && f != nil
+//@   modifies iterator.index
+//@   ensures [C08 C17] ItInv(iterator)
+//@   ensures [C08] found: result ==> 0 <= iterator.index && iterator.index < old(iterator.index) && f(iterator.index, Seq(iterator.queue)[iterator.index])
+//@     && (forall j :: iterator.index < j && j < old(iterator.index) ==> !f(j, Seq(iterator.queue)[j]))
+//@   ensures [C08] notfound: !result ==> iterator.index == 0 - 1 && (forall j :: 0 <= j && j < old(iterator.index) ==> !f(j, Seq(iterator.queue)[j]))
+//@   loop 1:
+//@     invariant ItInv(iterator) && iterator.index <= old(iterator.index)
+//@     invariant forall j :: iterator.index <= j && j < old(iterator.index) && 0 <= j ==> !f(j, Seq(iterator.queue)[j])
+//@     decreases iterator.index + 1
